@@ -2,7 +2,7 @@
 EXTENDS Notif
 CONSTANTS Contents, MAXT, NameSet, MaxSent
 Init == /\ inbox = [a \in Acc |-> {}] /\ blocks = {} /\ names = [n \in NameSet |-> CHOOSE a \in Acc : TRUE]
-        /\ time = 1 /\ sent = {} /\ deleted = {} /\ last = [a |-> "init", ok |-> TRUE]
+        /\ time = 1 /\ sent = {} /\ deleted = {} /\ gblocks = {} /\ last = [a |-> "init", ok |-> TRUE]
 G(A) == A /\ GhostNext
 Next == G(\/ (Cardinality(sent) < MaxSent /\ \E s \in Acc, to \in Targets, c \in Contents : Create(s, to, c))
           \/ \E s \in Acc, f \in Acc, t \in 0..MAXT : Delete(s, f, t)
@@ -11,5 +11,5 @@ Next == G(\/ (Cardinality(sent) < MaxSent /\ \E s \in Acc, to \in Targets, c \in
           \/ (time < MAXT /\ Tick))
 View == <<vars, ghosts>>
 AV == <<vars, ghosts, last>>
-PC18 == [][C18_Step /\ C18_BlockSilent]_AV
+PC18 == [][C18_Step /\ C18_BlockSilent /\ C18_BlockRecorded]_AV
 =============================================================================
